@@ -33,6 +33,8 @@ inductive Expr (α : Type) where
   | padc (v : α) (n : Nat) (e : Expr α)
   | pade (n : Nat) (e : Expr α)
   | cache (e : Expr α)
+  /-- `FromIter::from(IntoIter::from(e))`: a source turned into an iterator and back -/
+  | rt (e : Expr α)
 
 /-- a machine together with its initial state -/
 structure Started (α : Type) where
@@ -53,6 +55,7 @@ def Expr.compile : Expr α → Started α
   | .padc v n e => ⟨padConst e.compile.src v, (e.compile.st, n, n, .front)⟩
   | .pade n e => ⟨padEdge e.compile.src n, (e.compile.st, .before)⟩
   | .cache e => ⟨Sources.cache e.compile.src, (e.compile.st, none)⟩
+  | .rt e => e.compile
 
 def cycleDen : Content α → Content α
   | .fin [] => .fin []
@@ -72,6 +75,7 @@ def Expr.den : Expr α → Content α
   | .padc v n e => Content.prependRep n v (Content.appendList e.den (List.replicate n v))
   | .pade n e => Content.padEdge' n e.den
   | .cache e => e.den
+  | .rt e => e.den
 
 /-- **C10**: every adapter tree, of any depth, yields exactly what its iterator analogue yields,
 and keeps answering `none` after a finite end -/
@@ -98,6 +102,7 @@ theorem tree_correct (e : Expr α) : Implements e.compile.src e.compile.st e.den
   | padc v n e ih => exact padConst_correct _ _ _ v n ih
   | pade n e ih => exact padEdge_correct _ _ _ n ih
   | cache e ih => exact cache_correct _ _ _ none ih
+  | rt e ih => exact ih
 
 end SignaloModel.Sources
 
